@@ -208,9 +208,15 @@ func ccCheck(c ccRecipe, brute bool) (bad bool, obs, req string, nontrivial bool
 			defer func() { pn = recover() }()
 			cl = append([]string{}, r.buildCharacterList()...)
 			nReal = r.n()
-			ent1 = r.Entropy()
+			// first on recipes whose computed fields were never built (what a user's first call sees),
+			// then on the one buildCharacterList has already been applied to
+			fresh1, fresh2 := c.mk(), c.mk()
+			ent1 = fresh1.Entropy()
 			ent2 = r.Entropy()
-			sp = r.SuccessProbability()
+			sp = fresh2.SuccessProbability()
+			if sp2 := r.SuccessProbability(); sp2 != sp && !(sp2 != sp2 && sp != sp) {
+				panic(vSprint("SuccessProbability() = ", sp, " on a fresh recipe, ", sp2, " after buildCharacterList"))
+			}
 		}()
 	})
 	if pn != nil {
